@@ -110,10 +110,14 @@ def hosvd(  # noqa: PLR0912,PLR0913,PLR0915
         eigvec = D[pi]
 
         # If rank not provided compute it.
+        # Number of leading eigenvectors kept: as requested, or one more than the
+        # (0-based) cutoff index computed below
+        num_vectors = ranks[k]
         if ranks[k] == 0:
             eigsum = np.cumsum(eigvec[::-1])
             eigsum = eigsum[::-1]
             ranks[k] = np.where(eigsum > eigsumthresh)[0][-1]
+            num_vectors = ranks[k] + 1
 
             if verbosity > 5:
                 print("Reverse cumulative sum of evals of Gram matrix:")
@@ -125,7 +129,7 @@ def hosvd(  # noqa: PLR0912,PLR0913,PLR0915
 
         # Extract factor matrix b picking leading eigenvectors of V
         # NOTE: Plus 1 in pi slice for inclusive range to match MATLAB
-        factor_matrices[k] = V[:, pi[0 : ranks[k] + 1]]
+        factor_matrices[k] = V[:, pi[0:num_vectors]]
 
         # Shrink!
         if sequential:
